@@ -52,6 +52,12 @@ class C19(Check):
         'filter_thru weighted-mean model compared only for polynomial (degree <= 4) log-wavelength solutions, where '
         'the cubic fit of the pixel size inside filter_thru is exact; response = second column (respt) of the tables',
         'sdssflux2ab offsets c_b are read off the magnitude form of each case, not taken from the docstring',
+        'whole-Angstrom wavelengths are also given as integer-dtype arrays (i2/u2/i4/u4/i8, big-endian, 1-d/2-d/0-d), '
+        'Python and numpy integer scalars and Quantities built from integer arrays, each against the float64 answer; '
+        'plain lists/tuples (not "float, array and Quantity") and integer-dtype sdssflux2ab input may be refused with a '
+        'TypeError (what the current tree does, counted as *_refused), but an answer must equal the float64 answer',
+        'integer flux images (raw counts, i2/i4/i8) are generated for filter_thru since F-A2 was repaired (the pinned tree '
+        'answered 0 in every band for them)',
     ]
     REQUIRED_COUNTERS = ('atv_below_unchanged', 'atv_above_strict', 'atv_roundtrip_av', 'atv_roundtrip_va',
                          'atv_exact_2000', 'atv_python_float', 'atv_numpy_scalar', 'atv_0d_array',
@@ -61,7 +67,9 @@ class C19(Check):
                          'ft_decreasing_wavelength', 'ft_spliced_cases', 'ft_dispersion_ratio_ge_10',
                          'ft_locally_reversed_or_duplicated', 'ft_dispersion_step_inside_band',
                          'ft_single_bright_pixel_traces', 'ft_bands_with_1_to_3_pixels', 'ft_inputs_unchanged',
-                         'atv_repeat_calls', 'ab_repeat_calls')
+                         'atv_repeat_calls', 'ab_repeat_calls', 'atv_integer_array_calls', 'atv_integer_2d_array_calls',
+                         'atv_python_int', 'atv_numpy_int_scalar', 'atv_integer_0d_array', 'atv_integer_quantity',
+                         'atv_sequence_calls', 'ab_integer_calls', 'ft_integer_flux_cases')
     MIN_NONTRIVIAL = 20
 
     # ------------------------------------------------------------------ setup
@@ -112,6 +120,7 @@ class C19(Check):
             'atv_edges': 8 if q else 64,
             'atv_scalars': 120 if q else 4000,
             'atv_arrays': 160 if q else 6000,
+            'atv_integers': 60 if q else 2000,
             'flux2ab': 120 if q else 4000,
             'ft_sdss': 40 if q else 700,
             'ft_narrow': 32 if q else 600,
@@ -148,6 +157,27 @@ class C19(Check):
             extra += [float(2000.6474934 + rng.choice([-1, 1]) * 10.0 ** rng.uniform(-9, -2)) for _ in range(4)]
             return {'kind': 'atv', 'lam': list(HOT) + extra, 'scalars': len(HOT) + len(extra), 'shape': None,
                     'layout': rng.choice(['c', 'strided', 'readonly', 'bigendian']), 'units': units, 'arrays': True}
+        if cls == 'atv_integers':
+            # whole-Angstrom wavelengths, to be handed over in integer dtypes / Python ints / sequences / integer Quantities
+            m = rng.random()
+            if m < 0.15:
+                lo = rng.randrange(2100, 4000, 100)
+                lam = list(range(lo, lo + rng.randint(2, 14) * 500, 500))          # np.arange(3000, 9000, 500)-like grids
+            else:
+                top = rng.choice([30000, 30000, 65000, 300000])
+                n = rng.randint(1, 40)
+                lam = [rng.choice([1999, 2000, 2001, 100, 1500, 2500, top]) if rng.random() < 0.15
+                       else int(round(np.exp(rng.uniform(np.log(100.0), np.log(float(top)))))) for _ in range(n)]
+            n = len(lam)
+            shape = None
+            if rng.random() < 0.35 and n >= 2:
+                r = rng.choice([d for d in range(1, n + 1) if n % d == 0])
+                shape = [r, n // r]
+            qints = {'AA': lam,
+                     'nm': [rng.choice([150, 199, 200, 201, 500]) if rng.random() < 0.2 else rng.randint(10, 30000) for _ in range(n)],
+                     'um': [rng.randint(1, 30) for _ in range(n)]}
+            return {'kind': 'atv', 'ints': True, 'lam': [float(v) for v in lam], 'qints': qints, 'scalars': min(n, 3),
+                    'shape': shape, 'layout': rng.choice(['c', 'c', 'readonly', 'strided']), 'units': [], 'arrays': False}
         if cls == 'atv_scalars':
             n = rng.randint(1, 6)
             return {'kind': 'atv', 'lam': [self._lam(rng) for _ in range(n)], 'scalars': n, 'shape': None,
@@ -296,7 +326,7 @@ class C19(Check):
                 'const': rng.choice([1.0, -2.5, 0.0, 1.0e-17, 12345.678, rng.uniform(-10, 10)]) ,
                 'mask': mask.tolist(), 'mval': mval, 'maskdtype': rng.choice(['int', 'bool', 'uint8', 'float']),
                 'garbage': garbage, 'lin_masked': rng.random() < 0.4, 'const_masked': rng.random() < 0.4,
-                'fdtype': rng.choice(['f8', 'f8', 'f8', '>f8', 'f4'])}
+                'fdtype': rng.choice(['f8', 'f8', 'f8', '>f8', 'f4', 'i4', 'i2', 'i8'])}
 
     # wavelength solutions that are legitimate but far from a polynomial in pixel number: arms of different
     # dispersion spliced together, a step of dispersion inside a band, arms that overlap (wavelengths locally
@@ -411,7 +441,7 @@ class C19(Check):
                 'mask': mask.tolist(), 'mval': rng.choice([1, 1, 64, -1]),
                 'maskdtype': rng.choice(['int', 'bool', 'uint8', 'float']),
                 'garbage': rng.choice(['nan', 'inf', 'huge', 'random', 'neg']), 'lin_masked': rng.random() < 0.4,
-                'const_masked': rng.random() < 0.4, 'fdtype': rng.choice(['f8', 'f8', 'f8', '>f8', 'f4'])}
+                'const_masked': rng.random() < 0.4, 'fdtype': rng.choice(['f8', 'f8', 'f8', '>f8', 'f4', 'i4', 'i2', 'i8'])}
 
     # ------------------------------------------------------------------ run
     def run(self, case, out):
@@ -444,7 +474,7 @@ class C19(Check):
         a = arr.copy()
         return a, a
 
-    def _one(self, out, fname, x, lamA, unit, base, flavour):
+    def _one(self, out, fname, x, lamA, unit, base, flavour, may_refuse=False):
         """One observed call y = fname(x) followed by the inverse call on y.
 
         lamA: the wavelengths in Angstrom (float64 ndarray, same shape as x), base: answer of the plain
@@ -461,7 +491,15 @@ class C19(Check):
             return (_bytes(owner.value if hasattr(owner, 'unit') else owner), _bytes(x.value if isq else x))
         before = snap()
         xval = np.array(x.value if isq else x, dtype=float)          # private copy of the values in caller's unit
-        y = fn(x)
+        try:
+            y = fn(x)
+        except TypeError:
+            if may_refuse:
+                # plain Python sequences are not among "float, array and Quantity": a loud TypeError is tolerated,
+                # an answer must be the right one
+                out.count('atv_sequence_refused')
+                return
+            raise
         after = snap()
         out.expect(before == after, 'input-modified', '%s changed its argument (%s)' % (fname, flavour))
         out.count('atv_input_unchanged')
@@ -601,10 +639,77 @@ class C19(Check):
                     lamq = np.array(q.value, dtype=float) * UNITS[un]
                     self._one(out, fname, (q, vals[1]), lamq, un, base, 'quantity-array-' + case['layout'])
                     out.count('atv_quantity_array')
+            if case.get('ints'):
+                self._integer_flavours(case, out, fname, lam1, base1)
             # after all flavours have gone through: the plain array answer is still what it was at the start
             again = np.asarray(getattr(self.A, fname)(lam1.copy()), dtype=float)
             out.expect(_bytes(again) == first_answer, 'repeat-call',
                        '%s(float64 array) answers differently after calls with other input flavours' % fname)
+
+    def _integer_flavours(self, case, out, fname, lam1, base1):
+        """the same whole-Angstrom wavelengths as integer-dtype arrays (1-d, 2-d, 0-d), Python / numpy integer
+        scalars, lists and tuples, and Quantities built from integer arrays; each against the float64 answer."""
+        u = self.u
+        fn = getattr(self.A, fname)
+        ilam = np.array(case['lam']).astype(np.int64)
+        shape = tuple(case['shape']) if case['shape'] else ilam.shape
+        lam = lam1.reshape(shape)
+        base = base1.reshape(shape)
+        top = int(ilam.max())
+        dts = ['i8', 'i4', 'u4', '>i4'] + (['i2'] if top <= 32767 else []) + (['u2'] if top <= 65535 else [])
+        for dt in dts:
+            a = ilam.astype(dt).reshape(shape)
+            if case['layout'] == 'strided':
+                big = np.zeros(a.shape[:-1] + (a.shape[-1] * 2,), dtype=dt)
+                big[..., ::2] = a
+                x = (big[..., ::2], big)
+            else:
+                if case['layout'] == 'readonly':
+                    a.flags.writeable = False
+                x = (a, a)
+            self._one(out, fname, x, lam, None, base, 'int-array-%s%s' % (dt, '-2d' if len(shape) == 2 else ''))
+            out.count('atv_integer_array_calls')
+            if len(shape) == 2:
+                out.count('atv_integer_2d_array_calls')
+        # sequences
+        for seq, nm in ((ilam.reshape(shape).tolist(), 'list'), (tuple(ilam.tolist()), 'tuple'),
+                        (lam1.tolist(), 'list-of-floats')):
+            owner = np.array(seq)
+            self._one(out, fname, (seq, owner), lam if nm == 'list' else lam1, None, base if nm == 'list' else base1,
+                      nm, may_refuse=True)
+            out.count('atv_sequence_calls')
+        # scalars
+        for j in range(case['scalars']):
+            l = int(ilam[j])
+            la = np.array(float(l))
+            b = base1[j:j + 1].reshape(())
+            self._one(out, fname, (l, np.array(l)), la, None, b, 'pyint')
+            out.count('atv_python_int')
+            for dt in dts:
+                sc = np.dtype(dt).type(l) if not dt.startswith('>') else None
+                if sc is not None:
+                    self._one(out, fname, (sc, sc), la, None, b, 'numpy-' + dt)
+                    out.count('atv_numpy_int_scalar')
+            z = np.array(l)
+            self._one(out, fname, (z, z), la, None, b, 'int-array0d')
+            out.count('atv_integer_0d_array')
+            q = u.Quantity(l, self.uobj['AA'])
+            self._one(out, fname, (q, q), la, 'AA', b, 'quantity-scalar-from-int')
+            out.count('atv_integer_quantity')
+        # Quantities built from integer arrays, integer-valued in the caller's own unit
+        for un, vals in case['qints'].items():
+            iv = np.array(vals).astype(np.int64).reshape(shape)
+            lamq = iv.astype(float) * UNITS[un]
+            bq = np.asarray(fn(lamq.copy()), dtype=float)
+            for how in ('Quantity(int array)', 'int array * unit', 'Quantity(dtype=int)'):
+                if how == 'Quantity(int array)':
+                    q = u.Quantity(iv.copy(), self.uobj[un])
+                elif how == 'int array * unit':
+                    q = iv.astype('i4') * self.uobj[un]
+                else:
+                    q = u.Quantity(iv.copy(), self.uobj[un], dtype=np.int64)
+                self._one(out, fname, (q, q), lamq, un, bq, '%s [%s]' % (how, un))
+                out.count('atv_integer_quantity')
 
     # ---- sdssflux2ab ----------------------------------------------------
     def _run_ab(self, case, out):
@@ -674,6 +779,27 @@ class C19(Check):
         sn_ab = res['flux', 0] ** 2 * res['ivar', 0]
         out.expect(bool((np.abs(sn_ab - sn_in) <= max(tol * 10, 1e-11) * np.abs(sn_in)).all()), 'flux2ab-ivar-vs-flux',
                    'flux^2 * ivar (signal-to-noise squared) changed by the conversion')
+        # integer-valued fluxes / magnitudes / ivars in an integer dtype: a loud refusal (the in-place multiply cannot
+        # be cast) is tolerated, an answer must be the answer for the same values given as float
+        for name, kw in (('flux', {}), ('mag', {'magnitude': True}), ('ivar', {'ivar': True})):
+            iv = np.clip(np.round(pr[name] * (1.0 if name == 'mag' else 10.0 / (np.abs(pr[name]).max() or 1.0))),
+                         -30000, 30000).astype('i8')
+            want = np.asarray(f(iv.astype(float), **kw), dtype=float)
+            for idt in ('i8', 'i4', 'i2'):
+                out.count('ab_integer_calls')
+                arr = iv.astype(idt)
+                keep = arr.copy()
+                try:
+                    got = f(arr, **kw)
+                except TypeError:
+                    out.count('ab_integer_refused')
+                    out.expect(np.array_equal(arr, keep), 'flux2ab-consistency', 'refused integer %s array was modified' % name)
+                    continue
+                got = np.asarray(got, dtype=float)
+                out.expect(got.shape == want.shape and bool((np.abs(got - want) <= 1e-12 * np.maximum(1.0, np.abs(want))).all())
+                           and np.array_equal(arr, keep), 'flux2ab-integer-input',
+                           '%s form: %s array gives a different answer than the same values as float64' % (name, idt),
+                           got=got[:3], want=want[:3])
         out.count('ab_rows', rows)
         out.count('ab_repeat_calls', 3)
         out.count('ab_negative_flux', int((pr['flux'] < 0).sum()))
@@ -696,6 +822,21 @@ class C19(Check):
         nT, nx = case['nT'], case['nx']
         dt = case['fdtype']
         single = dt == 'f4'
+        # integer flux images (raw counts): F-A2
+        integer = np.dtype(dt).kind in 'iu'
+        if integer:
+            # counts: integer-valued, well inside the range of the dtype (the linear combination a*f1 + b*f2 must fit too)
+            lim = int(np.iinfo(dt).max) // 8
+
+            def counts(lst):
+                v = np.array(lst, dtype=float)
+                m = float(np.abs(v).max()) or 1.0
+                if m > lim or m < 50:
+                    v = v * (min(lim, 2000) / m)
+                return np.rint(v).tolist()
+            cc = float(np.clip(round(case['const']) or 3, -lim, lim))
+            case = dict(case, f1=counts(case['f1']), f2=counts(case['f2']), const=cc)
+            out.count('ft_integer_flux_cases')
         lin_tol = 1e-10 if not single else 2e-5
         model_tol = 1e-7 if not single else 1e-4
         explicit = case.get('wave') is not None
@@ -767,7 +908,10 @@ class C19(Check):
 
         def garbage(f):
             gf = np.array(f, dtype=dt)
-            gm = case['garbage']
+            gm = case['garbage'] if not integer else 'int'
+            if gm == 'int':
+                gf[~good] = 30000
+                return gf
             if gm == 'nan':
                 gf[~good] = np.nan
             elif gm == 'inf':
@@ -869,6 +1013,8 @@ class C19(Check):
                 out.expect(np.array_equal(r1m[t], r1[t]), 'filter-mask-independent', 'all-zero mask row changes the result of trace %d' % t)
         # (5,6) linearity
         a, b_ = case['a'], case['b']
+        if integer:
+            a, b_ = float(round(a) or 1), float(round(b_) or 1)
         comb = (a * v1 + b_ * v2).astype(dt)
         if case['lin_masked']:
             ra, rb, rab = r1m, call(f2p.copy(), m=mask), call(comb.copy(), m=mask)
